@@ -21,7 +21,7 @@ def run(ck):
     ck.coq()
     if not ck.build_harness("stream"):
         return
-    extra = ["-replay", ck.replay] if ck.replay else []
+    extra = ["-replay", os.path.abspath(ck.replay)] if ck.replay else []
     path, _ = ck.harness("c19", extra=extra)
     lines = ck.model("stream", "c19", path)
     c03.classify(ck, path, lines, "Transport/BaseConn.v (cn_step) ~ transport.BaseConn over the instrumented carrier")
